@@ -215,6 +215,90 @@ def class_level_stores():
     return sorted(set(sites))
 
 
+# ---- (c3) lazily initialised INSTANCE attributes (objects that live in class-level tables are shared by all threads and elements):
+#      every  `if self.<a> is None: ...`  whose body stores self.<a>; shape = one store of the final value on every path, or several
+def lazy_instance_stores():
+    sites = []
+
+    def attr_of_test(t):
+        if isinstance(t, ast.Compare) and len(t.ops) == 1 and isinstance(t.ops[0], ast.Is) and isinstance(t.comparators[0], ast.Constant) and \
+                t.comparators[0].value is None and isinstance(t.left, ast.Attribute) and isinstance(t.left.value, ast.Name) and t.left.value.id == 'self':
+            return t.left.attr
+        if isinstance(t, ast.UnaryOp) and isinstance(t.op, ast.Not) and isinstance(t.operand, ast.Attribute) and isinstance(t.operand.value, ast.Name) and t.operand.value.id == 'self':
+            return t.operand.attr
+        return None
+
+    def is_store(x, a):
+        """number of stores to / in-place updates of self.<a> in the simple statement x"""
+        n = 0
+        for y in ast.walk(x):
+            if isinstance(y, (ast.Assign, ast.AugAssign)):
+                tg = y.targets if isinstance(y, ast.Assign) else [y.target]
+                for t in tg:
+                    base = t.value if isinstance(t, ast.Subscript) else t
+                    if isinstance(base, ast.Attribute) and base.attr == a and isinstance(base.value, ast.Name) and base.value.id == 'self':
+                        n += 1
+            if isinstance(y, ast.Call) and isinstance(y.func, ast.Attribute) and y.func.attr in ('append', 'extend', 'insert', 'update', 'add', 'setdefault', 'pop', 'remove', 'clear'):
+                b = y.func.value
+                if isinstance(b, ast.Attribute) and b.attr == a and isinstance(b.value, ast.Name) and b.value.id == 'self':
+                    n += 1
+        return n
+
+    def stores_on_path(stmts, a):
+        """(maximal number of stores on one path outside loops, maximal number per loop iteration)"""
+        n, per_iter = 0, 0
+        for st in stmts:
+            if isinstance(st, ast.If):
+                b, o_ = stores_on_path(st.body, a), stores_on_path(st.orelse, a)
+                n += max(b[0], o_[0])
+                per_iter = max(per_iter, b[1], o_[1])
+            elif isinstance(st, (ast.For, ast.While)):
+                b = stores_on_path(st.body, a)
+                per_iter = max(per_iter, b[0], b[1])
+            elif isinstance(st, ast.Try):
+                parts = [stores_on_path(st.body, a)] + [stores_on_path(h.body, a) for h in st.handlers] + [stores_on_path(st.finalbody, a)]
+                n += parts[0][0] + max([p_[0] for p_ in parts[1:-1]] + [0]) + parts[-1][0]
+                per_iter = max([per_iter] + [p_[1] for p_ in parts])
+            elif isinstance(st, ast.With):
+                b = stores_on_path(st.body, a)
+                n += b[0]
+                per_iter = max(per_iter, b[1])
+            else:
+                n += is_store(st, a)
+        return n, per_iter
+    trees = {rel: parse(rel) for rel in lib_files()}
+
+    def referenced(name, own):
+        for rel, tree in trees.items():
+            for fn2 in [n for n in ast.walk(tree) if isinstance(n, ast.FunctionDef)]:
+                if fn2 is own:
+                    continue
+                for x in ast.walk(fn2):
+                    if isinstance(x, ast.Attribute) and x.attr == name:
+                        return True
+        return False
+    for rel, tree in trees.items():
+        for fn in [n for n in ast.walk(tree) if isinstance(n, ast.FunctionDef)]:
+            for node in ast.walk(fn):
+                if isinstance(node, ast.If):
+                    a = attr_of_test(node.test)
+                    if a is None:
+                        continue
+                    k, it = stores_on_path(node.body, a)
+                    if k == 0 and it == 0:
+                        continue
+                    if not referenced(fn.name, fn):
+                        shape = 'Unreferenced'
+                    elif k == 1 and it == 0:
+                        shape = 'SingleStore'
+                    elif k == 0 and it == 1:
+                        shape = 'LoopStore'
+                    else:
+                        shape = 'Unsafe'
+                    sites.append((rel, fn.name, fn.lineno, fn.end_lineno, a, node.lineno, shape))
+    return sorted(set(sites))
+
+
 # ---- (c'') what a new element shares with the per-type container template
 def sharing_facts():
     facts = {}
@@ -580,6 +664,12 @@ def main():
     o.append('Inductive store_shape := SPublishThenFill | SSingleStore.')
     o.append('Definition class_level_stores : list (string * string * string * N * store_shape) := [' + ';\n '.join(
         '(%s, %s, %s, %d%%N, %s)' % (cq(f), cq(fn), cq(a), ln, 'S' + sh) for f, fn, _, _, a, ln, sh in cls_sites) + '].')
+    lz = lazy_instance_stores()
+    side['lazy_instance_stores'] = lz
+    o.append('(* every lazily initialised instance attribute (if self.a is None: ... self.a = ...): file, function, attribute, line, shape *)')
+    o.append('Inductive lazy_shape := LSingleStore | LLoopStore | LUnreferenced | LUnsafe.')
+    o.append('Definition lazy_instance_stores : list (string * string * string * N * lazy_shape) := [' + ';\n '.join(
+        '(%s, %s, %s, %d%%N, %s)' % (cq(f), cq(fn), cq(a), ln, 'L' + sh) for f, fn, _, _, a, ln, sh in lz) + '].')
     try:
         sf = sharing_facts()
         side['sharing'] = sf
